@@ -636,6 +636,17 @@ class Interp:
             self.heap[(base.key, node.attr)] = val
 
     # ------------------------------------------------------------------ closures
+    def _closure_name(self, fi):
+        """position-independent name: reference transcriptions ('#spec') and moved lambdas compare equal"""
+        import re
+        name = fi.short.replace('#spec', '')
+        if isinstance(fi.node, ast.Lambda) and fi.parent is not None:
+            lams = [n for n in ast.walk(fi.parent.node) if isinstance(n, ast.Lambda)]
+            lams.sort(key=lambda n: (n.lineno, n.col_offset))
+            k = next((i for i, n in enumerate(lams) if n is fi.node), 0)
+            name = re.sub(r'<lambda@[\d:]+>', f'<lambda#{k}>', name)
+        return name
+
     def make_closure(self, fi, fr):
         free = set()
         bound = set(fi.all_params())
@@ -656,6 +667,6 @@ class Interp:
         for n in sorted(free - bound):
             if n in fr.env:
                 cap.append((n, fr.env[n]))
-        at = Atom('closure', fi.short, tuple(cap))
+        at = Atom('closure', self._closure_name(fi), tuple(cap))
         self.closures[at.key] = Closure(fi, fr.env, fr.self_term, fr.self_cls)
         return Term.of(at)
